@@ -591,7 +591,8 @@ func (e *Engine) loadAt(st *State, addr string, src *addrSrc, t types.Type) stri
 		return "(" + sym("mk$"+key) + " " + strings.Join(fs, " ") + ")"
 	case *types.Array:
 		if _, ok := isStruct(u.Elem()); ok {
-			e.unsupported = append(e.unsupported, "load of array of structs")
+			// arrays of structs by value are not tracked element-wise: the loaded value is arbitrary (sound)
+			e.assume("values of arrays of structs are not tracked (loads yield arbitrary values)")
 			return e.sc.fresh("arrval", e.sortOf(t))
 		}
 		return "(select " + e.get(st, e.elemComp(u.Elem())) + " " + addr + ")"
@@ -637,7 +638,13 @@ func (e *Engine) storeAt(st *State, addr string, src *addrSrc, t types.Type, v s
 		return
 	case *types.Array:
 		if _, ok := isStruct(u.Elem()); ok {
-			e.unsupported = append(e.unsupported, "store of array of structs")
+			// not tracked element-wise: every field component of the element type becomes arbitrary (sound)
+			e.assume("values of arrays of structs are not tracked (stores havoc the element type's fields)")
+			comps := map[string]bool{}
+			e.deepComps(u.Elem(), comps)
+			for _, c := range sortedKeys(comps) {
+				e.havocComp(st, c)
+			}
 			return
 		}
 		c := e.elemComp(u.Elem())
